@@ -133,6 +133,12 @@ EXC_POOL: Dict[str, Any] = {
     "EmptyLenError": EmptyLenError,
     "BadStrError": BadStrError,
     "LockedError": LockedError,
+    # exception groups (what asyncio.TaskGroup / anyio raise): with one member, several, a BaseException member, and one
+    # whose only member is the no-result signal - the group is what the function raised
+    "Group1": lambda tok, value: ExceptionGroup(tok, [ValueError(tok, value)]),
+    "Group2": lambda tok, value: ExceptionGroup(tok, [ValueError(tok, value), KeyError(tok)]),
+    "GroupBase1": lambda tok, value: BaseExceptionGroup(tok, [KeyboardInterrupt(tok)]),
+    "GroupNoResult": lambda tok, value: ExceptionGroup(tok, [NoResultError(tok)]),
     # what Context.reject() raises: an ordinary failure for the result and for the retry middleware
     "TaskRejectedError": lambda tok, value: _rejected(tok, value),
 }
